@@ -22,6 +22,25 @@ pub struct TermSpec {
     pub la: Option<(bool, String, String)>,
     /// scanner states the terminal is valid in
     pub states: Vec<usize>,
+    /// state lists of further occurrences of the same terminal (parol accumulates the states of all
+    /// occurrences); the occurrences themselves are written inline in `ScanCfg::body`
+    #[serde(default)]
+    pub more: Vec<Vec<usize>>,
+}
+
+impl TermSpec {
+    /// the union of the states of all occurrences
+    pub fn all_states(&self) -> Vec<usize> {
+        let mut v = self.states.clone();
+        for m in &self.more {
+            for s in m {
+                if !v.contains(s) {
+                    v.push(*s);
+                }
+            }
+        }
+        v
+    }
 }
 
 #[derive(Clone, Debug, PartialEq, Eq, Hash, serde::Serialize, serde::Deserialize)]
@@ -134,19 +153,21 @@ impl ScanCfg {
             }
             s.push_str(" };\n");
         }
-        for (i, t) in self.terms.iter().enumerate() {
-            let states = if t.states == vec![0] {
+        let prefix = |states: &Vec<usize>| -> String {
+            if *states == vec![0] {
                 String::new()
             } else {
-                let l: Vec<String> = t.states.iter().map(|x| self.modes[*x].name.clone()).collect();
+                let l: Vec<String> = states.iter().map(|x| self.modes[*x].name.clone()).collect();
                 format!("<{}>", l.join(", "))
-            };
-            let la = match &t.la {
-                None => String::new(),
-                Some((true, p, _)) => format!(" ?= {p}"),
-                Some((false, p, _)) => format!(" ?! {p}"),
-            };
-            s.push_str(&format!("T{i}: {states}{}{la};\n", t.par));
+            }
+        };
+        let la_of = |t: &TermSpec| match &t.la {
+            None => String::new(),
+            Some((true, p, _)) => format!(" ?= {p}"),
+            Some((false, p, _)) => format!(" ?! {p}"),
+        };
+        for (i, t) in self.terms.iter().enumerate() {
+            s.push_str(&format!("T{i}: {}{}{};\n", prefix(&t.states), t.par, la_of(t)));
         }
         s
     }
@@ -246,7 +267,7 @@ impl RefScanner {
         }
         prio += 1;
         for (ti, t) in self.cfg.terms.iter().enumerate() {
-            if !t.states.contains(&m) {
+            if !t.all_states().contains(&m) {
                 continue;
             }
             for e in &ends {
